@@ -183,6 +183,24 @@ func (m *hModel) send(tag string) {
 	}
 }
 
+// reopen: C20 over histories — every node object of every currently registered pipeline is reopened at least once
+func (m *hModel) reopen(tag string) {
+	before := make([]int, len(m.all))
+	for i, n := range m.all {
+		before[i] = n.reopens
+	}
+	err := m.b.Reopen(m.ctx)
+	verifAssert(err == nil, tag+".reopen-nil-when-no-node-fails")
+	for _, p := range m.pipes {
+		if !p.on {
+			continue
+		}
+		for _, o := range p.objs {
+			verifAssert(o.reopens > before[m.objIdx(o)], tag+".reopen-reaches-every-node-of-every-registered-pipeline")
+		}
+	}
+}
+
 // agree: everything a client can observe agrees with the model
 func (m *hModel) agree(tag string) {
 	for slot, r := range m.nodes {
@@ -220,10 +238,12 @@ func H_C05_history_vs_model() {
 	}
 	H := verifParam("H")
 	for i := 0; i < H; i++ {
-		op := symLen(0, 13)
+		op := symLen(0, 14)
 		verifNoteInt("op", op)
 		tag := "C05.history"
 		switch op {
+		case 14:
+			m.reopen(tag)
 		case 12:
 			m.registerPipelineAs(0, true, nondetBool(), tag)
 		case 13:
@@ -245,6 +265,7 @@ func H_C05_history_vs_model() {
 	}
 	m.send("C05.history.final")
 	m.agree("C05.history.final")
+	m.reopen("C05.history.final")
 	brokerInvariant(m.b, "C05.history.inv")
 	verifReach("C05.history.end")
 }
